@@ -274,6 +274,29 @@ pub fn c16(tier: &str, seed: u64) -> Vec<Case> {
             if eq3 != set3.contains(&i3) { c3 = c3.fail("hashset-lookup-instance", "".into()); }
             v.push(c3);
         }
+        // the value discovery hands out: built from the records of the instance (`from_records`), it equals the one built
+        // through the constructors, hashes like it and is found in a set holding it
+        if !name.contains('.') && !name.contains('\\') && name.is_ascii() {
+            let service = Name::new_unchecked("_own._tcp.local");
+            if let Ok(full) = Name::new(&format!("{}._own._tcp.local", name)) {
+                if let Ok(recs) = a.clone().into_records(&full.clone().into_owned(), 120) {
+                    let recs: Vec<ResourceRecord<'static>> = recs.into_iter().map(|r| r.into_owned()).collect();
+                    let mut c5 = Case::oracle_only().tag("hash.inst-from-records");
+                    match simple_mdns::verif::instance_from_records(&service, recs.iter()) {
+                        None => { c5 = c5.fail("eq-hash-instance", "from_records gives nothing for the records of an instance".into()); }
+                        Some(d) => {
+                            let same = d == a;
+                            let mut set5 = HashSet::new();
+                            set5.insert(a.clone());
+                            if same && h(&d) != h(&a) { c5 = c5.fail("eq-hash-instance", "the instance built from records equals the constructed one and hashes differently".into()); }
+                            if same != set5.contains(&d) { c5 = c5.fail("hashset-lookup-instance", "from_records".into()); }
+                            if !same && !a.attributes.contains_key("") { c5 = c5.fail("eq-hash-instance", "the instance built from the records of an instance does not equal it".into()); }
+                        }
+                    }
+                    v.push(c5);
+                }
+            }
+        }
         let (eq, heq) = (a == b, h(&a) == h(&b));
         let show = |i: &InstanceInformation, nm: &str| {
             let mut s = text::hex(nm.as_bytes());
@@ -319,8 +342,16 @@ fn observe(p: &Packet) -> std::result::Result<(), String> {
     try_it("clone-packet", &|| { let _ = p.clone(); })?;
     for q in &p.questions {
         try_it("display-name", &|| { let _ = format!("{} {:?}", q.qname, q.qname); })?;
-        try_it("question-owned", &|| { let _ = q.clone().into_owned(); })?;
+        try_it("format-name", &|| { format_every_way(&q.qname); })?;
+        try_it("question-owned", &|| { let o = q.clone().into_owned(); let _ = format!("{:?}", o); let _ = h(&o.qname) == h(&q.qname); })?;
     }
+    try_it("opt-owned", &|| { if let Some(o) = p.opt() { let c = o.clone().into_owned(); let _ = format!("{:?} {:?}", o, c); } })?;
+    // equality and hashing between DIFFERENT parts of the packet (not only a value and its own copy)
+    try_it("compare-different", &|| {
+        let all: Vec<&ResourceRecord> = p.answers.iter().chain(p.name_servers.iter()).chain(p.additional_records.iter()).collect();
+        for (i, a) in all.iter().enumerate().take(6) { for b in all.iter().skip(i).take(6) { let _ = (a == b, a.rdata == b.rdata, a.name == b.name, h(*a) == h(*b)); } }
+        for a in &p.questions { for r in all.iter().take(4) { let _ = a.qname == r.name; } }
+    })?;
     for r in p.answers.iter().chain(p.name_servers.iter()).chain(p.additional_records.iter()) {
         try_it("display-name", &|| { let _ = format!("{} {:?} {}", r.name, r.name, r.name.to_string()); for l in r.name.get_labels() { let _ = format!("{} {:?}", l, l); } })?;
         try_it("format-name", &|| { format_every_way(&r.name); for l in r.name.get_labels() { format_every_way(l); } })?;
